@@ -133,6 +133,10 @@ MUTANTS: List[Tuple[str, List[str], List[Tuple[str, str, str]], str]] = [
      "exception thrown into dependencies regardless of propagate_exceptions"),
     ("skip-close-on-noresult", ["C12"], [(R, "            await dep_ctx.close(*args)", "            if not isinstance(found_exception, NoResultError):\n                await dep_ctx.close(*args)")],
      "dependencies never torn down for a no-result outcome"),
+    ("revert-F17", ["C15"], [(SR, "                except (ValueError, ZeroDivisionError):", "                except ValueError:")],
+     "reverts fix 424741d: a zero-step cron stops the scheduler loop"),
+    ("bad-cron-skips-rest-of-source", ["C15"], [(SR, "                        task.schedule_id,\n                    )\n                    continue", "                        task.schedule_id,\n                    )\n                    break")],
+     "an unparsable cron ends the evaluation of its source's remaining schedules for that poll"),
     ("cron-offset-subtracted", ["C13", "C15"], [(SR, "            now += task.cron_offset", "            now -= task.cron_offset")],
      "timedelta offset applied with the wrong sign"),
     ("cron-tz-replace", ["C13"], [(SR, "            now = now.astimezone(pytz.timezone(task.cron_offset))", "            now = now.replace(tzinfo=pytz.timezone(task.cron_offset)).astimezone(pytz.timezone(task.cron_offset))")],
